@@ -182,5 +182,10 @@ CLAIMS['C41'] = {
   'note': _TB + 'Clauses one and two (table round trips for each shipped codepage: Codepage.__init__, unicode_to_bytes, bytes_to_unicode) are NOT decided: they are enumerations of data tables and unicodedata.normalize, outside contract-based deduction. The unbounded-length statement rests on the per-step invariant plus the structural fold check of _mark.',
 }
 
+CLAIMS['C34'] = {
+  'text': 'Proof, for every graphics mode row of display/modes.py and video memory sizes 16K-256K: the address maps of CGAMemoryMapper/EGAMemoryMapper/Tandy6MemoryMapper (_get_coords, _coord_ok, num_pages) are the inverse of the reference hardware layout in both directions (every on-screen pixel group is backed by exactly one byte per plane; an address backs content iff its coordinates lie on an existing page); GraphicsMemoryMapper._walk_memory is verified by loop invariant for all addresses and all block lengths: an arbitrary iteration emits exactly the chunk (decode(addr+ofs), ofs, length) iff that position backs content, every unit i of the chunk decodes to the i-th pixel group to the right on the same scan line, chunks are non-empty, stay inside the block, the variant decreases and the walk ends at the end of the block - so block access maps every byte exactly as byte access does; Memory._get_memory_block/_set_memory_block split a block into the part inside the 128 KiB video area and single-byte accesses at the right addresses (address symbolic over 1 MiB, lengths 0,1,2,5).',
+  'note': _TB + 'BOUNDED, not proved: the composition with ByteMatrix (get_memory/set_memory block = bytes) is only sampled natively (12/120 blocks per mode). Text modes (TextMemoryMapper) and pixel packing are not covered. Two defects found by these contracts were repaired in /repo (fix: commits 9fc0ff8a, 3336dfac).',
+}
+
 NOT_APPLICABLE = {
 }
